@@ -390,6 +390,9 @@ void explore_mut(Ctx &ctx) {
             Bytes salt = r.bytes(sl);
             Bytes tag = ref::argon2(type, c.pw, salt, t, m, p, (uint32_t) hl);
             if (*rc::gen::inRange(0, 6) == 0 && !tag.empty()) tag[0] ^= 1;          // well-formed string, wrong hash
+            // too little memory for the number of lanes (RFC 9106: m >= 8p): well-formed syntax, parameters that must be refused
+            // (the hash field is what a lenient implementation that rounds the memory up would compute, so that accepting is visible)
+            if (p >= 2 && *rc::gen::inRange(0, 5) == 0) { m = (uint32_t) *rc::gen::inRange((int) std::max(8u, 2 * p), (int) (8 * p)); tag = ref::argon2(type, c.pw, salt, t, 8 * p, p, (uint32_t) hl); if (tag.empty()) tag = r.bytes(hl); }
             base = ref::argon2_encode_string(type, m, t, p, salt, tag);
             c.ops = *rc::gen::inRange(0, 3) ? t : t + 1; c.mem = (size_t) (*rc::gen::inRange(0, 3) ? m : m + 1) * 1024 + (size_t) *rc::gen::inRange(0, 1024);
         }
